@@ -237,6 +237,8 @@ def _diag_tree(term, key):
     if par.get("herm") is not None:
         # dense complex HERMITIAN positive definite operators (callables): std_inv = H, cov_inv = H H
         H = np.array([[complex(*v) for v in r] for r in par["herm"]])
+        if not any(l.get("cplx") for l in term["tree"]["leaves"]):
+            H = H.real                                   # real data: real symmetric positive definite
         Hm = jx().numpy.asarray(H if key == "std" else H @ H)
         return lambda x: (Hm @ x.reshape(-1)).reshape(x.shape)
     vals = par.get(key)
